@@ -57,6 +57,39 @@ example : decodeSegment (pathSegment .asFound (.str [47, 37, 195, 169, 43])) = s
     decodeSegment (pathSegment .asFound (.str [46])) = some [46] ∧ pathSegment .asFound (.str [46]) = [37, 50, 69] := by
   decide
 
+/-- **UTF-8 round trip** (RFC 3629): the strict decoder recovers every string of Unicode scalar values. -/
+theorem utf8_roundtrip (s : Str) (h : ∀ c ∈ s, isScalar c = true) : utf8Decode (utf8 s) = some s :=
+  utf8Decode_utf8 s h
+
+/-- **Path values as text.**  For every Unicode string (scalar values; surrogates are filtered by `is_valid_path`):
+    percent-decoding the segment written by the repaired `quote_all` and UTF-8-decoding the bytes gives the
+    generated string; as found, the same holds for strings without a space. -/
+theorem path_text_roundtrip (v : Variant) (s : Str) (h : ∀ c ∈ s, isScalar c = true)
+    (hv : v = .repaired ∨ 32 ∉ s) :
+    (decodeSegment (pathSegment v (.str (utf8 s)))).bind utf8Decode = some s := by
+  have hb := utf8_isBytes s h
+  have hseg : decodeSegment (pathSegment v (.str (utf8 s))) = some (utf8 s) := by
+    cases v
+    · rcases hv with hv | hv
+      · cases hv
+      · apply path_roundtrip_partial _ hb
+        intro hm
+        simp only [utf8, List.mem_flatMap] at hm
+        obtain ⟨c, hc, hmc⟩ := hm
+        have : c = 32 := by
+          unfold utf8Char at hmc
+          split at hmc
+          · simp at hmc; exact hmc.symm
+          · split at hmc
+            · simp at hmc; omega
+            · split at hmc
+              · simp at hmc; omega
+              · simp at hmc; omega
+        exact hv (this ▸ hc)
+    · exact path_roundtrip_repaired _ hb
+  rw [hseg]
+  exact utf8Decode_utf8 s h
+
 /-! ### URL composition: `prepare_url` = base path ⧺ "/" ⧺ instantiated template -/
 
 /-- **URL join.**  For every base path made of clean segments (with its trailing slash) and every instantiated path
@@ -104,6 +137,51 @@ example : BaseOk [[97, 112, 105]] ∧ PathOk [[117], [37, 50, 69], [120]] := by
   · intro s hs
     simp [dropLast] at hs
     rcases hs with rfl | rfl <;> decide
+
+/-- **The path on the wire is the template with every variable replaced by its percent-encoded value.**
+    For every clean base path, every template of literal segments and variables, every non-empty byte-string value:
+    the URL path that `prepare_url` returns splits into exactly the base segments followed by the template's segments,
+    and a conforming server reads every literal as itself and every variable as its generated value —
+    for the repaired `quote_all`; as found, for values without a space. -/
+theorem wire_path (v : Variant) (bsegs : List Bytes) (ts : List TSeg) (hb : BaseOk bsegs) (ht : TemplateOk ts)
+    (hv : v = .repaired ∨ ∀ bs, TSeg.val bs ∈ ts → 32 ∉ bs) :
+    segments (prepareUrlPath (slashJoin ([] :: bsegs ++ [[]])) (47 :: slashJoin (ts.map (instSeg v))))
+      = [] :: bsegs ++ ts.map (instSeg v) ∧
+    ∀ t ∈ ts, decodeSegment (instSeg v t) = some (expectSeg t) := by
+  have hp := pathOk_of_template v ts ht
+  constructor
+  · rw [url_join bsegs _ hb hp, segments_eq_splitSlash, slashJoin_eq]
+    apply splitSlash_joinSlash _ (by simp)
+    intro x hx
+    simp only [List.cons_append, List.mem_cons, List.mem_append] at hx
+    rcases hx with rfl | hx | hx
+    · simp
+    · exact (hb x hx).2.2.2.1
+    · exact (hp.2.1 x hx).1
+  · intro t hmem
+    have hok := ht.2.1 t hmem
+    cases t with
+    | lit s => exact decodeSegment_lit s hok.1
+    | val bs =>
+      simp only [instSeg, expectSeg]
+      rcases hv with rfl | hsp
+      · exact path_roundtrip_repaired bs hok.1
+      · cases v
+        · exact path_roundtrip_partial bs hok.1 (hsp bs hmem)
+        · exact path_roundtrip_repaired bs hok.1
+
+/-- non-vacuity of `wire_path`: base "/api", template "/u/{id}/x", id = "é/." -/
+example : TemplateOk [.lit [117], .val [195, 169, 47, 46], .lit [120]] := by
+  refine ⟨by simp, ?_, ?_⟩
+  · intro t ht
+    simp at ht
+    rcases ht with rfl | rfl | rfl
+    · exact ⟨by decide, by decide, by decide⟩
+    · exact ⟨by intro b hb; simp at hb; omega, by simp⟩
+    · exact ⟨by decide, by decide, by decide⟩
+  · intro t ht
+    simp [dropLast] at ht
+    rcases ht with rfl | rfl <;> simp
 
 /-! ### parameter styles: decoder ∘ serializer = coercion (F13 and the style table) -/
 
